@@ -517,7 +517,7 @@ def verify_psd(ctx, shape, dx, hq, w, ux, uy, P, rt, what, tag=''):
     wms = float(((hq * w) ** 2).sum() / (w * w).sum())
     dfx, dfy = 1.0 / (nx * dx), 1.0 / (ny * dx)
     integral = float(P.astype(np.float64).sum()) * dfx * dfy
-    ctx.require(abs(integral - wms) <= rt * wms, 'psd:parseval' + tag,
+    ctx.within(abs(integral - wms), rt * wms, 'psd:parseval' + tag,
                 'sum(PSD) df_x df_y = %.15g, window-weighted mean square = %.15g (shape %s dx %g; %s)' % (integral, wms, shape, dx, what))
     odd = ('odd' if (ny % 2 or nx % 2) else 'even')
     U.check_close(P, ref_psd(hq, w, dx), rt, 'psd:array:%s-axis' % odd + tag,
@@ -691,11 +691,11 @@ def check_sinus(case, ctx):
             ctx.require(int(at.sum()) == 1, 'psd:axes', 'frequency (%g, %g) is not a sample of the returned axes' % (s * fx, s * fy))
             got = float(P[at][0])
             iy, ix = np.unravel_index(int(np.argmax(P)), P.shape)
-            ctx.require(abs(got - want) <= 1e-9 * want, bucket,
+            ctx.within(abs(got - want), 1e-9 * want, bucket,
                         '%s map dx=%g, sinusoid at (fx,fy)=(%.6g,%.6g): PSD there is %.4g, expected %.4g; the maximum %.4g is reported at (%.6g,%.6g)'
                         % (shape, dx, s * fx, s * fy, got, want, float(P.max()), float(ux[iy, ix]), float(uy[iy, ix])))
             rest &= ~at
-        ctx.require(float(P[rest].max()) <= 1e-9 * want, bucket + ':leak', 'power %.3g outside the two peaks (peak %.3g)' % (float(P[rest].max()), want))
+        ctx.within(float(P[rest].max()), 1e-9 * want, bucket + ':leak', 'power %.3g outside the two peaks (peak %.3g)' % (float(P[rest].max()), want))
     else:
         p = ctx.call((build_ifg(ctx, h, dxarg, case['build']) if case.get('build') is not None else Interferogram(h, dxarg)).psd)
         ux, uy, P = np.asarray(p.x), np.asarray(p.y), np.asarray(p.data)
@@ -860,14 +860,14 @@ def check_brms(case, ctx):
         if other == 'freq' or fl > 0 or fh_arg is not None:
             v2 = brms(fl, fh_arg, other)
             pv_, fv_ = (v2 * v2, val[k]) if other == 'period' else (val[k], v2 * v2)
-            ctx.require(abs(pv_ - fv_) <= tol, 'brms:period-vs-frequency', 'periods give brms^2 %.12g, frequencies %.12g; %s' % (pv_, fv_, what))
-    ctx.require(abs(val['ac'] - (val['ab'] + val['bc'])) <= tol, 'brms:additive',
+            ctx.within(abs(pv_ - fv_), tol, 'brms:period-vs-frequency', 'periods give brms^2 %.12g, frequencies %.12g; %s' % (pv_, fv_, what))
+    ctx.within(abs(val['ac'] - (val['ab'] + val['bc'])), tol, 'brms:additive',
                 'brms(a,c)^2=%.12g but brms(a,b)^2+brms(b,c)^2=%.12g+%.12g (a=%.6g b=%.6g c=%s) %s' % (val['ac'], val['ab'], val['bc'], lo, b, hi, shape))
     ctx.require(val['ab'] <= val['ac'] + tol and val['bc'] <= val['ac'] + tol and val['ac'] <= val['full'] + tol, 'brms:monotone',
                 'widening a band decreased brms^2: ab=%.12g bc=%.12g ac=%.12g full=%.12g' % (val['ab'], val['bc'], val['ac'], val['full']))
     if full_target is not None:
         lo_b, hi_b = band_bounds(0.0, math.inf)
-        ctx.require(abs(hi_b - full_target) <= 1e-9 * full_target, 'harness:parseval', 'reference PSD does not integrate to the mean square')
+        ctx.within(abs(hi_b - full_target), 1e-9 * full_target, 'harness:parseval', 'reference PSD does not integrate to the mean square')
         ctx.require(lo_b - tol <= val['full'] <= full_target + tol,
                     'brms:full-band:' + ('nonsquare' if ny != nx else 'square'),
                     'full-band brms^2 = %.12g, window-weighted mean square %.12g, outermost-sample weight %.3g (shape %s dx %g window %s)'
@@ -1084,7 +1084,7 @@ def check_synth(case, ctx):
             return
         # formed on z / rms so that neither 1e200**2 overflows nor 1e-200**2 underflows inside the oracle
         got = rms_ * float(np.sqrt(np.mean((z[fin].astype(np.float64) / rms_) ** 2)))
-        ctx.require(abs(got - rms_) <= 1e-9 * rms_, 'synth:rms' + (':extreme-request' if not 1e-3 <= rms_ <= 1e4 else '') + tag,
+        ctx.within(abs(got - rms_), 1e-9 * rms_, 'synth:rms' + (':extreme-request' if not 1e-3 <= rms_ <= 1e4 else '') + tag,
                     'requested RMS %.12g, RMS of the %d valid samples %.12g (samples=%d, mask=%s, model=%s)' % (rms_, int(fin.sum()), got, n, mk, case['model']))
         ctx.require(float(np.ptp(z[fin])) > 0 or int(fin.sum()) == 1, 'synth:flat' + tag, 'synthesised surface is constant')
 
@@ -1204,7 +1204,7 @@ class GridModel:
         U.check_shape(z, (n, n), 'synth', 'surface')
         ctx.require(bool(np.all(np.isfinite(z))), 'synth:mask', 'unmasked synthesis has non-finite samples')
         got = float(np.sqrt(np.mean(z ** 2)))
-        ctx.require(abs(got - op['rms']) <= 1e-9 * op['rms'], 'synth:rms' + (':zero-requested' if op['rms'] == 0 else ''),
+        ctx.within(abs(got - op['rms']), 1e-9 * op['rms'], 'synth:rms' + (':zero-requested' if op['rms'] == 0 else ''),
                     'requested RMS %.12g, got %.12g (samples=%d)' % (op['rms'], got, n))
         dx = i.dx
         ctx.require(np.ndim(dx) == 0 and np.isfinite(dx) and float(dx) > 0, 'render_from_psd:dx', 'render_from_psd reports dx=%r' % (dx,))
